@@ -16,17 +16,29 @@ from hypothesis import strategies as st
 from cv.harness.runner import Outcome
 
 PROPERTY = "C13"
-TECHNIQUE = "model-based generation of type-request histories (Hypothesis) against a dict/closure model"
+TECHNIQUE = ("model-based generation of type-request histories and of view chains (Hypothesis) against a dict/closure "
+             "model of the lattice and a bit-position model of views")
 RULE = (
     "case = ordered list of requests for BitVector/Unsigned/Signed[n] (int, n-1:0 and 0:n-1 forms), "
     "Array[T,n], Signal/Variable/Temporary[T], Port[T,dir] with widths fresh for the process, followed by "
     "view chains on instances; non-trivial = a derived family (Unsigned/Signed[n], Q[...], Port) is requested "
-    "before its base BitVector[n]/Signal[T] exists, or a view of a view is taken; distinct = case hash"
+    "before its base BitVector[n]/Signal[T] exists, or a view of a view is taken; distinct = case hash. "
+    "view cases = Signal/Variable/Temporary[T] for vector T (width 1-9) or Array[T,1-4] with a generated chain of "
+    ".unsigned/.signed/.bitvector, static slices, indices, msb/lsb/left/right (bit, count, rest forms) and iteration, "
+    "checked at the Python level (root, qualifier, bits read for 2-3 root patterns, write-through both ways for "
+    "Signal/Variable, constant _ref_spec) and, in viewvhdl cases, in the index text of the emitted VHDL "
+    "(o <<= view / view <<= inp)"
 )
 ASSUMPTIONS = [
     "documented lattice = transitive closure of: U[n],S[n] <= BV[n]; U[n] <= Unsigned <= BitVector; "
     "Q[T1] <= Q[T2] for T1 <= T2; Port[T,d] <= Signal[T]; everything else unrelated",
     "UPTO-ordered vector types are only checked for identity/distinctness, not for their relation to DOWNTO types",
+    "views: only DOWNTO roots, constant indices and static slices; Temporary has no Python level write API, so "
+    "write-through is checked for Signal and Variable only; the wrapped kind of a view (e.g. slice of Unsigned) is "
+    "not asserted, only which root bits it shows",
+    "views at VHDL level: the emitted index text of the single assignment is compared with the modelled root "
+    "indices (no simulation; cv.vhdl is not available yet); a _ref_spec is resolved as the VHDL backend does "
+    "(constant base offsets added to offset / start / stop)",
 ]
 
 _fresh = itertools.count(0)
